@@ -527,8 +527,15 @@ func (o *oracles) secondLife(dir string, st1 *manager.VerifState, v1 *ViewSig, w
 			}
 		}
 	}
-	for conv, m := range v2.View.Conv {
-		for id, d := range m {
+	for _, conv := range sortedKeys(v2.View.Conv) {
+		m := v2.View.Conv[conv]
+		ids := make([]uint64, 0, len(m))
+		for id := range m {
+			ids = append(ids, id)
+		}
+		sort.Slice(ids, func(i, j int) bool { return ids[i] < ids[j] })
+		for _, id := range ids {
+			d := m[id]
 			if d == "empty" && dg[id] == VconvDigest(nil) {
 				continue
 			}
